@@ -13,5 +13,16 @@ def sub(m):
         return m.group(0)
     return "**%s (%d/%d%s)**" % (pid, c["discharged"], c["obligations"], rest)
 s2 = re.sub(r"\*\*(C\d\d) \((\d+/\d+)([^)]*)\)\*\*", sub, s)
+import glob
+names, fns, tot = set(), set(), 0
+for f in sorted(glob.glob(os.path.join(V, "evidence", "C*.json"))):
+    c = json.load(open(f))["coverage"]
+    tot += c["obligations"]
+    for o in c["obligation_results"]:
+        names.add(o.get("name"))
+    for fn in c["functions_under_contract"]:
+        fns.add(fn if isinstance(fn, str) else fn.get("name"))
+s2 = re.sub(r"\(\d+ distinct named\s+obligations over \d+ functions of `/repo`, \d+ counted per property",
+            "(%d distinct named\nobligations over %d functions of `/repo`, %d counted per property" % (len(names), len(fns), tot), s2)
 open(p, "w").write(s2)
 print("updated" if s2 != s else "unchanged")
